@@ -5,23 +5,23 @@ import os
 VERIF = os.path.dirname(os.path.dirname(os.path.abspath(__file__)))
 
 TB = ("Lean 4.33 kernel (axioms propext, Classical.choice, Quot.sound only; audited on every run); the spec layer "
-      "(Model/Int32, SigMap, Circuit, Core, Elab: transcription of Factorio 2.0 circuit rules A1-A7 and of the documented Facto semantics); "
+      "(Model/Int32, SigMap, Circuit, Core, Elab: transcription of Factorio 2.0 circuit rules A1-A7; Model/Match: the validator whose acceptance the theorems are about and of the documented Facto semantics); "
       "the artefact dump (harness/facto_dump.py) and Lean's JSON decoding; the program quantifier is exercised by generation")
 
 CHECKS = {
- "C01": ("proof", "6.C01", "Lean theorems M1 settle/fixpoint + per-scheme lowering rule lemmas over the circuit and Core models; correspondence: elaborator + denotation vs simulated printed blueprint and wiring isolation check on generated scalar programs"),
- "C02": ("proof", "6.C02", "Lean theorems on each/filter/gate closed forms and no-leak support lemmas; correspondence on generated bundle programs (whole anchor networks compared)"),
+ "C01": ("proof", "6.C01", "per-program theorem Facto.scalar_end_to_end / observed_scalar_end_to_end: a kernel-verified validator (Model/Match.checkAll + Circuit.checkRanked, soundness in Proofs/MatchSound.lean) accepts the decoded printed blueprint against the Core program produced by the reference elaborator, then every bound output equals its denotation for ALL input values from the settling tick on; programs the validator rejects fall back to failing-input search (simulation) and the known-finding classifier"),
+ "C02": ("proof", "6.C02", "per-program theorems Facto.bundle_end_to_end / observed_bundle_end_to_end / wiresum_end_to_end: the verified validator covers bundle literals (incl. shared constant combinators), bundle OP scalar, filters, gates, any/all, selections; accepted programs carry exactly the denoted members for ALL inputs (pointwise equality of wire sums: no member missing, none foreign); rejected programs fall back to failing-input search + known-finding classifier"),
  "C03": ("proof", "6.C03", "Lean theorem gated_cell_step for all enable/data/stored values + hold/follow/zero corollaries over streams; correspondence: quasi-static histories on generated gated cells"),
  "C04": ("proof", "6.C04", "Lean theorem ring_iterates / ring_latency (value(t+k) = f(value t) for every tick); correspondence: latency search on generated always-write cells, optimisation on/off"),
  "C05": ("proof", "6.C05", "Lean theorems sr_latch_step, inlined set-priority form, translated _invert_comparison correct, RS-latch negations (F22); correspondence on generated latch programs"),
- "C06": ("proof", "6.C06", "Lean rule lemmas for inlined comparisons / decider conditions; correspondence: entity enable conditions vs denotation with free chest contents"),
+ "C06": ("proof", "6.C06", "per-program theorem Facto.enable_end_to_end: for accepted programs the circuit condition of every placed entity is true exactly when the assigned expression is positive, for ALL input values and ALL contents of the containers read through .output (declared sources), covering value>0 wiring and inlined comparison / any / all / negation; fallback: failing-input search"),
  "C07": ("proof", "6.C07", "Lean M5 (behaviour is a function of the decoded logical circuit) + canonical form; correspondence: planned placement properties and connections vs Lean decoding of the printed text, and all CLI entry points decoded and compared"),
  "C08": ("proof", "6.C08", "Lean theorems: footprint-disjoint => collision-disjoint, tile/centre round trip, relay invariant on the pattern-translated RelayNode; correspondence: exact geometric check of every printed blueprint over the option x forced-solver-outcome matrix"),
  "C09": ("proof", "6.C09", "Lean tile/centre theorem + reference elaborator placements (loops, calls, int arithmetic); correspondence: multiset of user entities in the printed blueprint"),
- "C10": ("proof", "6.C10", "both builds are related to the same denotation (transitivity); correspondence on CSE-stress and C01-C06 generators with optimisation on and off"),
+ "C10": ("proof", "6.C10", "both builds are related to the same denotation: when the verified validator accepts both (scalar_end_to_end / bundle_end_to_end), they are equal to it and hence to each other for ALL inputs; otherwise correspondence by simulation on CSE-stress and C01-C06 generators with optimisation on and off; stateful programs by history search"),
  "C11": ("proof", "6.C11", "36 Lean theorems on the folders translated from the current source (agreement with the combinator ALU per operator, negations with witnesses for / and %); translator correspondence on 30k operand pairs; folding sites end to end"),
- "C12": ("proof", "6.C12", "locality theorem evalEnt_local + wiring isolation; correspondence: P, Q and an interleaving of renamed-apart programs"),
- "C13": ("proof", "6.C13", "denotation with abstract implicit types matched through the compiler's naming; static freshness rules on the compiler's signal map"),
+ "C12": ("proof", "6.C12", "locality theorem evalEnt_local + the verified validator (read_isolated / carries_sound: an accepted operand sees exactly its own producers, so the joint build denotes P and Q separately for ALL inputs); fallback: simulation of P, Q and an interleaving of renamed-apart programs"),
+ "C13": ("proof", "6.C13", "denotation with abstract implicit types matched through the compiler's naming and validated by the verified matcher (scalar_end_to_end holds whatever signal the compiler chose, provided isolation holds); static freshness rules on the compiler's signal map; fallback: simulation"),
  "C14": ("proof", "6.C14", "Lean theorems: errors propagate through any prefix / loop body (violation anywhere rejected), reserved literal rejected in every state; correspondence: accept/reject and error class on one-violation mutants in 26 rule instances x 4 contexts, CLI sample"),
  "C15": ("proof", "6.C15", "reference elaborator (call = substitution with fresh copies, lexical scoping); correspondence of compiled blueprints with it"),
  "C16": ("proof", "6.C16", "Lean theorem C16_iteration_values on the translated get_iteration_values (termination is an obligation) + membership characterisation; elaborator unrolls over it; correspondence on generated loops"),
